@@ -1,8 +1,13 @@
 (* Correspondence evaluator for C16: runs the archive-loader, cleanJoin and writeLock models
    on the inputs the harness ran through the real code and reports disagreeing indices. *)
 From Coq Require Import List String Bool Arith ZArith.
-From Helm Require Import Chart.Paths Chart.Archive Chart.Lock Gen.Limits.
+From Helm Require Import Chart.Paths Chart.PathFns Chart.Archive Chart.Lock Chart.FsTree Gen.Limits.
 Import ListNotations.
+
+(* what os.Stat / os.Lstat answered on the materialised tree *)
+Inductive robs :=
+| RAt (loc : list string)      (* the same file as the one at this location (os.SameFile) *)
+| RNoEnt | RNotDir | RLoop | RInval | ROther.
 
 Inductive lock_obs :=
 | LRefused                 (* Update returned an error, lock path unchanged *)
@@ -13,6 +18,20 @@ Inductive case :=
 | CJoin (root dest : string) (obs : cj_err + string)
 | CLock (pre : option node) (legacy : bool) (obs : lock_obs) (outside_changed : bool)
 | CDownload (upath : string) (obs : option string)   (* base name of the file DownloadTo wrote; None = refused *)
+(* path.Clean = filepath.Clean, filepath.Base = path.Base, filepath.Dir = path.Dir, path.IsAbs on s *)
+| CPath (s clean base dir : string) (isabs : bool)
+| CPJoin (elems : list string) (obs : string)                        (* path.Join = filepath.Join *)
+| CPrefix (s p : string) (obs : bool)                                (* strings.HasPrefix *)
+| CJoin2 (root dest : string) (obs : cj_err2 + string)               (* cleanJoin, any root *)
+(* on a tree materialised in the sandbox (the sandbox root is /sb in the model): *)
+| CSecJoin (t : tnode) (root unsafe : string) (obs : option string)  (* securejoin.SecureJoin; None = error *)
+| CResolve (t : tnode) (path : string) (follow : bool) (obs : robs)  (* os.Stat / os.Lstat *)
+| CExpandT (t : tnode) (dest : list string) (chart_name : option string) (s : tstream)
+           (failed : bool) (after : list (list string * shallow))    (* chartutil.Expand *)
+| CExtractT (t : tnode) (dest : list string) (s : tstream)
+            (failed : bool) (after : list (list string * shallow))   (* TarGzExtractor.Extract *)
+| CLockT (t : tnode) (chartpath : string) (legacy : bool) (data : string)
+         (failed : bool) (after : list (list string * shallow))      (* writeLock *)
 | COracleOnly
 | CPanic.
 
@@ -40,6 +59,40 @@ Definition cj_eqb (a b : cj_err + string) : bool :=
   | _, _ => false
   end.
 
+Definition cj2_eqb (a b : cj_err2 + string) : bool :=
+  match a, b with
+  | inl CJ2Colon, inl CJ2Colon | inl CJ2DotDot, inl CJ2DotDot | inl CJ2Abs, inl CJ2Abs | inl CJ2Root, inl CJ2Root => true
+  | inr x, inr y => String.eqb x y
+  | _, _ => false
+  end.
+
+Definition is_some {A} (o : option A) : bool := match o with Some _ => true | None => false end.
+
+Definition robs_ok (w : wres) (o : robs) : bool :=
+  match w, o with
+  | WAt loc _, RAt l => list_eqb String.eqb loc l
+  | WNew _ _, RNoEnt | WErr ENOENT, RNoEnt | WErr ENOTDIR, RNotDir | WErr ELOOP, RLoop | WErr EINVAL, RInval => true
+  | _, _ => false
+  end.
+
+(* the observed listing (one entry per location, from a map) against the model's tree: the
+   same number of locations, and every observed location holds the same shallow node *)
+Definition tree_matches (t : tnode) (obs : list (list string * shallow)) : bool :=
+  Nat.eqb (List.length (flatten 200 t [])) (List.length obs) &&
+  forallb (fun ps => shallow_eqb (shallow_of (tget t (fst ps))) (snd ps)) obs.
+
+(* Expand from the tar entries: LoadArchiveFiles under the source tree's limits, the chart
+   name as sigs.k8s.io/yaml read it from the loaded Chart.yaml (None: it did not parse) *)
+Definition run_expand (t : tnode) (dest : list string) (name : option string) (s : tstream) : tnode * bool :=
+  match load_archive_files max_decompressed_chart_size max_decompressed_file_size s with
+  | inl _ => (t, true)
+  | inr fs =>
+      match name with
+      | None => (t, true)
+      | Some n => let r := expand_model t dest n fs in (fst r, is_some (snd r))
+      end
+  end.
+
 Definition node_is_file (n : option node) : bool := match n with Some (NFile _) => true | _ => false end.
 
 Definition case_ok (c : case) : bool :=
@@ -65,6 +118,29 @@ Definition case_ok (c : case) : bool :=
       | None, None => true
       | _, _ => false
       end
+  | CPath s clean base dir isabs =>
+      String.eqb (path_clean s) clean && String.eqb (clean_bytes s) clean && is_clean_path clean &&
+      String.eqb (path_base s) base && String.eqb (path_dir_go s) dir && Bool.eqb (is_abs s) isabs
+  | CPJoin elems obs =>
+      String.eqb (path_join_n elems) obs &&
+      match elems with [a; b] => String.eqb (path_join a b) obs | _ => true end
+  | CPrefix s p obs => Bool.eqb (has_prefix s p) obs
+  | CJoin2 root dest obs => cj2_eqb (clean_join2 root dest) obs
+  | CSecJoin t root unsafe obs =>
+      match secure_join_s t root unsafe, obs with
+      | inr a, Some b => String.eqb a b
+      | inl _, None => true
+      | _, _ => false
+      end
+  | CResolve t path follow obs => robs_ok (k_walk t [] path follow) obs
+  | CExpandT t dest name s failed after =>
+      let '(t', e) := run_expand t dest name s in Bool.eqb e failed && tree_matches t' after
+  | CExtractT t dest s failed after =>
+      let r := extract_model t dest s in
+      Bool.eqb (is_some (snd r)) failed && tree_matches (fst r) after
+  | CLockT t chartpath legacy data failed after =>
+      let r := write_lock_t t [] chartpath legacy data in
+      Bool.eqb (is_some (snd r)) failed && tree_matches (fst r) after
   | COracleOnly => true
   | CPanic => false
   end.
